@@ -478,3 +478,38 @@ def binders_pass_through(ctx):
     ctx.ob(okp, pu, 'Pipe evaluates its own steps unchanged as one chain: %s' % [norm(x) for x in pr],
            '' if okp else 'the steps handed to the chain evaluator are not self.steps itself (nested chains would lose their frame)')
     ctx.floor(9)
+
+
+@rule('C07.14')
+def nested_evaluation_carries_scope(ctx):
+    """a spec that hands a bound ``Spec(x).glom`` to library code (First's key function) starts a
+    nested top-level evaluation; the enclosing scope reaches it only through the scope= argument,
+    so the callable is always built as partial(Spec(x).glom, scope=S) evaluated per run -- a bare
+    bound method would run the key spec in a fresh scope (S.name / S.globals unreadable)"""
+    p = ctx.program
+    n = 0
+    for u in p.package_units():
+        for a in u.own_nodes():
+            if not (isinstance(a, ast.Attribute) and a.attr == 'glom' and isinstance(a.value, ast.Call)
+                    and callee_qual(p, u, a.value) == 'core.Spec'):
+                continue
+            n += 1
+            par = parent(a)
+            if isinstance(par, ast.Call) and par.func is a:
+                ok = any(k.arg in ('scope', None) for k in par.keywords)
+                ctx.ob(ok, u, 'a nested Spec(..).glom(..) call passes the scope on: %s' % norm(par)[:80], node=a)
+                continue
+            ok = False
+            for anc in ancestors(a):
+                if isinstance(anc, ast.Call) and callee_qual(p, u, anc) == 'core.Call' and anc.args and \
+                        p.global_qualname(u, anc.args[0]) in ('functools.partial', 'partial'):
+                    kw = [k.value for k in anc.keywords if k.arg == 'kwargs'] + list(anc.args[2:3])
+                    for d in kw:
+                        if isinstance(d, ast.Dict):
+                            for k, v in zip(d.keys, d.values):
+                                if isinstance(k, ast.Constant) and k.value == 'scope' and p.global_qualname(u, v) == 'core.S':
+                                    ok = True
+            ctx.ob(ok, u, 'a bound Spec(..).glom used as a callable is wrapped in partial(.., scope=S), built per evaluation: %s' % norm(a)[:60],
+                   '' if ok else 'the key spec runs in a fresh scope: S.<name>, S.globals and Vars of the enclosing call are invisible', node=a)
+    ctx.require(n >= 1, 'no nested Spec(..).glom reference found (First.__init__)')
+    ctx.floor(1)
